@@ -13,10 +13,15 @@ import sys
 from vf import ref
 
 
-def reaction_tuple(rx):
+def reaction_tuple(rx, shared=None):
+    """shared: a dict used as a cache - reactions whose propensity dictionaries have equal content are then given the
+    very same dict *object* (as in user code that re-uses one dictionary for several reactions)."""
     pd = dict(rx["pd"])
     if rx["type"] == "general":
         pd = {"rate": rx["pd"]["rate"]}
+    if shared is not None:
+        key = (rx["type"], tuple(sorted((k, repr(v)) for k, v in pd.items())))
+        pd = shared.setdefault(key, pd)
     d = rx.get("delay")
     if d:
         return (list(rx["r"]), list(rx["p"]), rx["type"], pd, d["type"], list(d.get("r", [])), list(d.get("p", [])),
@@ -30,13 +35,13 @@ def rule_tuple(rl):
     return (rl["type"], {"equation": rl["eq"]}, rl.get("freq", "repeated"))
 
 
-def to_model(spec, initialize=True, lineage=False, **extra):
+def to_model(spec, initialize=True, lineage=False, share_dicts=False, **extra):
     if lineage:
         from bioscrape.lineage import LineageModel as Cls
     else:
         from bioscrape.types import Model as Cls
     kwargs = dict(species=list(spec["species"]),
-                  reactions=[reaction_tuple(rx) for rx in spec["reactions"]],
+                  reactions=(lambda cache: [reaction_tuple(rx, cache) for rx in spec["reactions"]])({} if share_dicts else None),
                   parameters=[(k, v) for k, v in spec["params"].items()],
                   rules=[rule_tuple(r) for r in spec.get("rules", [])],
                   initial_condition_dict=dict(spec["x0"]))
